@@ -356,6 +356,16 @@ func oneFault(ctx context.Context, rep *mon.Reporter, spec *gspec.GraphSpec, r c
 			return
 		}
 		rep.Count("node_paths_checked", 1)
+	} else if len(victims) == 1 && len(raised) == 1 {
+		// the failure was raised while the node streamed (an error item, a lazily evaluated body, a converter
+		// that panics): whoever read the item, the run error has to name the node the item came from
+		isGraph := func(k string) bool { n, _ := findNode(spec, k); return n != nil && n.Sub != nil }
+		if class, got := judgePath(out.Err, strings.Split(raised[0].Path, "/"), isGraph); class != "" {
+			rep.Violation(ID+"/stream-error-item/node-path/"+class, fmt.Sprintf("the error does not name the path %q of the node that failed while streaming (found: %q)\n%s\n%s", wantPath(raised[0].Path), got, msg, extra), wit)
+			return
+		}
+		rep.Count("node_paths_checked", 1)
+		rep.Count("node_paths_checked_for_failures_while_streaming", 1)
 	}
 	if len(ref.Execs) >= 2 {
 		rep.NonTrivial(spec.Digest() + "|" + gspec.Canon(in) + "|" + fmt.Sprint(names) + para)
